@@ -123,6 +123,16 @@ class ScopeContext:
                     exc_tb=exc_tb,
                 )
 
+        except BaseException as exc:
+            if exc_type is None:
+                # disposing failed (or was cancelled) - the scope is failing now,
+                # the task group has to cancel its remaining tasks instead of awaiting them
+                exc_type = type(exc)
+                exc_val = exc
+                exc_tb = exc.__traceback__
+
+            raise
+
         finally:
             try:
                 await self._task_group_context.__aexit__(
